@@ -15,6 +15,10 @@ type Case struct {
 	Ledgers  []CaseLedger                 `json:"ledgers"`
 	Ops      []Op                         `json:"ops"`
 	Strict   bool                         `json:"strict,omitempty"`
+	Group    int                          `json:"group,omitempty"`
+	// FeatureReads: after the history, issue the reads that need a feature and attach their outcome
+	// classes to the last line
+	FeatureReads bool `json:"featureReads,omitempty"`
 }
 
 type CaseLedger struct {
@@ -79,8 +83,20 @@ func RunCase(c Case) ([]Line, error) {
 	lines = append(lines, reset)
 	ctx := context.Background()
 	for i, op := range c.Ops {
+		nBefore := len(created)
 		if err := createDue(i); err != nil {
 			return nil, err
+		}
+		if len(created) > nBefore {
+			// a ledger was added (possibly to a bucket other ledgers already live in): an auxiliary line
+			// records the observation so that the frame condition covers the creation too
+			st, err := observeAll()
+			if err != nil {
+				return nil, obsFailure(env, err)
+			}
+			aux := Line{Case: c.N, Aux: true, St: st}
+			aux.Op.L = op.L
+			lines = append(lines, aux)
 		}
 		op.Norm()
 		_, cm0 := env.PG.Counters()
@@ -98,6 +114,14 @@ func RunCase(c Case) ([]Line, error) {
 			return nil, obsFailure(env, err)
 		}
 		lines = append(lines, Line{Case: c.N, Op: op, Res: res, St: st, Ev: evs})
+	}
+	if c.FeatureReads && len(lines) > 0 {
+		last := &lines[len(lines)-1]
+		for _, l := range c.Ledgers {
+			if created[l.Name] {
+				last.FRead = append(last.FRead, env.FeatureReads(l.Name, 5, last.St[l.Name].Flags))
+			}
+		}
 	}
 	if u := env.PG.UnsupportedSeen(); len(u) > 0 {
 		return nil, &Inconclusive{Msg: fmt.Sprintf("unsupported SQL in pgmodel: %v", u)}
